@@ -309,7 +309,7 @@ def check_property(prop: str, tier: str, seed: int, write_baseline=False, only_u
         "undecided": undecided,
         "known_findings_hit": [k["key"] for k in known_hits],
         "samples": samples or [{"note": "no proof obligations for this property; see bounded"}],
-        "explanation": EXPLAIN.get(prop, ""),
+        "explanation": EXPLAIN.get(prop, "") or "contract-based deductive verification of the units listed under coverage.units (VCs from /repo's current source, discharged by z3); bounded stand-in results, where present, are under coverage.bounded and are not counted as proved",
     }
     if bounded:
         cov["bounded"] = {k: v for k, v in bounded.items() if k != "violations"}
